@@ -64,4 +64,89 @@ theorem async_writer_sound_when_collected (w learned : Nat → Bool) (hl : ∀ i
 theorem c08_counter_write : ∃ (w : Nat → Bool) (i : Nat), w i = false ∧ (afterWrites w (fun _ => false) i).protected = true :=
   ⟨fun _ => false, 0, rfl, by decide⟩
 
+/-! ### the error limit (-L)
+
+A run over the selected stripes stops at the I/O error that makes the count reach the limit.
+`markLast` says whether the stripe of that last error is booked like the earlier ones (scrub after
+the repair 3e5a191; sync never books it: its stripe stays unsynced because the run stops before
+the blocks are recorded). -/
+
+/-- books after a scrub over `work` (stripe books with the outcome of reading them) under error limit
+    `lim`, `errs` I/O errors seen so far; stripes after the stop are untouched -/
+def scrubRun (markLast : Bool) (lim : Nat) : Nat → List (Stripe × Read) → List Stripe
+  | _, [] => []
+  | errs, (s, o) :: rest =>
+    match o with
+    | .ioError =>
+      if errs + 1 ≥ lim then (if markLast then afterRead s .ioError else s) :: rest.map (·.1)
+      else afterRead s .ioError :: scrubRun markLast lim (errs + 1) rest
+    | o => afterRead s o :: scrubRun markLast lim errs rest
+
+/-- did the run reach stripe `k` (0-based) before stopping? -/
+def reached (lim : Nat) : Nat → List (Stripe × Read) → Nat → Bool
+  | _, [], _ => false
+  | _, _ :: _, 0 => true
+  | errs, (_, o) :: rest, k+1 =>
+    match o with
+    | .ioError => if errs + 1 ≥ lim then false else reached lim (errs + 1) rest k
+    | _ => reached lim errs rest k
+
+theorem scrubRun_length (m : Bool) (lim errs : Nat) (work : List (Stripe × Read)) :
+    (scrubRun m lim errs work).length = work.length := by
+  induction work generalizing errs with
+  | nil => rfl
+  | cons x rest ih =>
+    obtain ⟨s, o⟩ := x
+    cases o <;> simp only [scrubRun]
+    · simp [ih]
+    · split <;> simp [ih]
+    · simp [ih]
+
+/-- **with the limit-reaching stripe booked too**: every stripe the run reached whose read hit an
+    operating-system error is not recorded as synced and healthy afterwards, whatever the limit and
+    however many errors came before -/
+theorem io_error_never_protects_with_limit (lim errs : Nat) (work : List (Stripe × Read)) (k : Nat) (s : Stripe)
+    (hk : work[k]? = some (s, .ioError)) (hr : reached lim errs work k = true) :
+    ∃ t, (scrubRun true lim errs work)[k]? = some t ∧ t.protected = false := by
+  induction work generalizing errs k with
+  | nil => simp at hk
+  | cons x rest ih =>
+    obtain ⟨s0, o⟩ := x
+    cases k with
+    | zero =>
+      simp only [List.getElem?_cons_zero, Option.some.injEq, Prod.mk.injEq] at hk
+      obtain ⟨rfl, rfl⟩ := hk
+      simp only [scrubRun]
+      split
+      · exact ⟨_, rfl, io_error_never_protects_reads s0⟩
+      · exact ⟨_, rfl, io_error_never_protects_reads s0⟩
+    | succ k' =>
+      rw [List.getElem?_cons_succ] at hk
+      cases o with
+      | ok =>
+        simp only [reached] at hr
+        obtain ⟨t, h1, h2⟩ := ih errs k' hk hr
+        exact ⟨t, by simp only [scrubRun, List.getElem?_cons_succ]; exact h1, h2⟩
+      | fileError =>
+        simp only [reached] at hr
+        obtain ⟨t, h1, h2⟩ := ih errs k' hk hr
+        exact ⟨t, by simp only [scrubRun, List.getElem?_cons_succ]; exact h1, h2⟩
+      | ioError =>
+        simp only [reached] at hr
+        split at hr
+        · cases hr
+        · rename_i hlim
+          obtain ⟨t, h1, h2⟩ := ih (errs + 1) k' hk hr
+          refine ⟨t, ?_, h2⟩
+          simp only [scrubRun, hlim, if_false, List.getElem?_cons_succ]
+          exact h1
+
+/-- the code before the repair (`markLast = false`): with limit 1 the stripe of the first error,
+    healthy before, is still recorded as synced and healthy.  Machine-checked counter-example,
+    replayed on the binary by E2E-EIO (`-L 1`). -/
+theorem c08_counter_limit :
+    ∃ (work : List (Stripe × Read)) (t : Stripe), work[0]? = some (⟨true, false⟩, .ioError) ∧
+      (scrubRun false 1 0 work)[0]? = some t ∧ t.protected = true :=
+  ⟨[(⟨true, false⟩, .ioError)], ⟨true, false⟩, rfl, rfl, rfl⟩
+
 end SnapraidVerif.Props.C08
